@@ -90,7 +90,9 @@ pub fn thread_scenario() -> Result<(), String> {
                 }
                 let r = block_on(sem.acquire(1));
                 std::thread::yield_now();
+                let _ = sem.permits();
                 drop(r);
+                let _ = sem.permits();
                 if block_on(tx.send(Box::new(t * 10 + i))).is_ok() {
                     sent.fetch_add(1, Ordering::SeqCst);
                 }
@@ -145,6 +147,124 @@ pub fn thread_scenario() -> Result<(), String> {
     }
     if shared_sem.permits() != 2 {
         return Err(format!("shared semaphore: {} permits, 2 expected", shared_sem.permits()));
+    }
+    Ok(())
+}
+
+/// Second real-thread program: every remaining thread-safe flavour is called *by reference*
+/// from two threads at once — one handle (or one borrowed primitive) shared through an `Arc`,
+/// so its internal handle count stays at one while both threads are inside it. The point is
+/// Miri's data-race detector: a lock-free shortcut in an accessor (`is_set()`, `is_locked()`,
+/// `try_receive()`, a "sole owner" fast path) has no lock, atomic or wake-up in it and therefore
+/// no scheduling point the L3 scheduler could use (seeded change TH05 was of that kind).
+pub fn thread_scenario_b() -> Result<(), String> {
+    use futures_intrusive::channel::shared::{oneshot_broadcast_channel, oneshot_channel, state_broadcast_channel};
+    use futures_intrusive::channel::StateId;
+    use futures_intrusive::sync::ManualResetEvent;
+    let ev = Arc::new(ManualResetEvent::new(false));
+    let umutex = Arc::new(Mutex::new(0u64, false));
+    let (btx, brx) = oneshot_broadcast_channel::<u64>();
+    let (otx, orx) = oneshot_channel::<Box<u64>>();
+    let (stx, srx) = state_broadcast_channel::<u64>();
+    let (ctx, crx) = channel::<Box<u64>>(2);
+    let (btx, brx, otx, orx) = (Arc::new(btx), Arc::new(brx), Arc::new(otx), Arc::new(orx));
+    let (stx, srx, ctx, crx) = (Arc::new(stx), Arc::new(srx), Arc::new(ctx), Arc::new(crx));
+    let timer = Arc::new(TimerService::new(&CLOCK));
+    let accepted = Arc::new(AtomicU64::new(0));
+    let received = Arc::new(AtomicU64::new(0));
+    let mut hs = Vec::new();
+    for t in 0..2u64 {
+        let (ev, umutex, btx, brx, otx, orx) = (ev.clone(), umutex.clone(), btx.clone(), brx.clone(), otx.clone(), orx.clone());
+        let (stx, srx, ctx, crx, timer) = (stx.clone(), srx.clone(), ctx.clone(), crx.clone(), timer.clone());
+        let (accepted, received) = (accepted.clone(), received.clone());
+        hs.push(std::thread::spawn(move || -> Result<(u64, u64), String> {
+            // event: both threads write (set/reset) and read (is_set, wait) in turns, so that in
+            // most schedules an accessor of one thread lies between two writes of the other
+            for i in 0..3u64 {
+                if (i + t) % 2 == 0 {
+                    ev.set();
+                } else {
+                    ev.reset();
+                }
+                let _ = ev.is_set();
+                std::thread::yield_now();
+                let _ = block_on(GiveUp { f: ev.wait(), n: 0 });
+                let _ = ev.is_set();
+            }
+            ev.set();
+            block_on(ev.wait());
+            // unfair mutex: try_lock / is_locked / lock with cancellation
+            for _ in 0..2 {
+                if let Some(mut g) = umutex.try_lock() {
+                    *g += 1;
+                    if !umutex.is_locked() {
+                        return Err("is_locked() false while this thread holds the guard".into());
+                    }
+                } else if let Some(mut g) = block_on(GiveUp { f: umutex.lock(), n: 1 }) {
+                    *g += 1;
+                }
+                std::thread::yield_now();
+                let _ = umutex.is_locked();
+            }
+            // oneshot broadcast: racing senders on one handle, both threads receive through one handle
+            let sent_b = btx.send(100 + t).is_ok();
+            let got_b = block_on(brx.receive()).ok_or("broadcast receive: None although a value was sent")?;
+            // single-consumer oneshot: racing senders, racing receivers
+            let sent_o = otx.send(Box::new(200 + t)).is_ok();
+            let got_o = block_on(orx.receive()).map(|b| *b);
+            // state broadcast
+            let mut id = StateId::new();
+            for i in 0..2u64 {
+                let _ = stx.send(t * 10 + i);
+                if let Some((nid, _)) = srx.try_receive(id) {
+                    id = nid;
+                }
+                if let Some(Some((nid, _))) = block_on(GiveUp { f: srx.receive(id), n: 1 }) {
+                    id = nid;
+                }
+            }
+            // shared mpmc by reference
+            for i in 0..3u64 {
+                if ctx.try_send(Box::new(t * 10 + i)).is_ok() {
+                    accepted.fetch_add(1, Ordering::SeqCst);
+                }
+                if crx.try_receive().is_ok() {
+                    received.fetch_add(1, Ordering::SeqCst);
+                }
+                if let Some(Some(_)) = block_on(GiveUp { f: crx.receive(), n: 0 }) {
+                    received.fetch_add(1, Ordering::SeqCst);
+                }
+            }
+            // timer accessors next to a registered future
+            let _ = block_on(GiveUp { f: timer.deadline(1_000_000 + t), n: 1 });
+            let _ = timer.next_expiration();
+            Ok((got_b, (sent_b as u64) | ((sent_o as u64) << 1) | ((got_o.is_some() as u64) << 2)))
+        }));
+    }
+    let mut res = Vec::new();
+    for h in hs {
+        res.push(h.join().map_err(|_| "worker panicked".to_string())??);
+    }
+    if res[0].0 != res[1].0 {
+        return Err(format!("broadcast receivers saw different values: {} and {}", res[0].0, res[1].0));
+    }
+    let sent_b = res.iter().filter(|r| r.1 & 1 != 0).count();
+    let sent_o = res.iter().filter(|r| r.1 & 2 != 0).count();
+    let got_o = res.iter().filter(|r| r.1 & 4 != 0).count();
+    if sent_b != 1 || sent_o != 1 || got_o != 1 {
+        return Err(format!("oneshot: {} broadcast sends and {} oneshot sends succeeded, {} receivers got the oneshot value (1/1/1 expected)", sent_b, sent_o, got_o));
+    }
+    while crx.try_receive().is_ok() {
+        received.fetch_add(1, Ordering::SeqCst);
+    }
+    if accepted.load(Ordering::SeqCst) != received.load(Ordering::SeqCst) {
+        return Err(format!("{} values accepted but {} received", accepted.load(Ordering::SeqCst), received.load(Ordering::SeqCst)));
+    }
+    if umutex.is_locked() || !ev.is_set() || timer.next_expiration().is_some() {
+        return Err("end state: mutex locked, event not set or a timer still registered".into());
+    }
+    if srx.try_receive(StateId::new()).is_none() {
+        return Err("state channel lost its last state".into());
     }
     Ok(())
 }
